@@ -201,6 +201,15 @@ def audit(c, o, prop, reference):
                     if a != b[:len(a)]:
                         bad.append("chain %d: recorded %s is not a prefix of / equal to the reference run's" % (i, key))
                         break
+    # different chains use different random streams: no two chains record the same draws
+    if prop == "C10" and oc.get("trace") is not None and not faulty:
+        seen = {}
+        for i, ch in enumerate(oc["trace"]):
+            key = tuple((ch.get("energy") or [])[:4])
+            if len(key) >= 2:
+                if key in seen:
+                    bad.append("chains %d and %d recorded identical draws (same random stream?)" % (seen[key], i))
+                seen[key] = i
     # progress counters agree with the trace
     last_prog = None
     for s_ in o.get("steps", []):
